@@ -1,6 +1,7 @@
 package checks
 
 import (
+	"time"
 	"fmt"
 	"os"
 	"os/exec"
@@ -81,6 +82,18 @@ var c19VarSets = []map[string]func() *variants.Variant{
 	}, "b": func() *variants.Variant { return variants.VariantFromString("x") }, "c": func() *variants.Variant { return variants.VariantFromDouble(3) }, "d": func() *variants.Variant { return variants.VariantFromInteger(0) }},
 }
 
+func init() {
+	// sets 3 and 4: a date-time next to the SAME text in two spellings (canonical / other letter case and
+	// padded with blanks): whatever converting one of them leaves behind must not change the other's result
+	dt := func() *variants.Variant {
+		return variants.VariantFromDateTime(time.Date(2021, 3, 6, 7, 8, 9, 0, time.UTC))
+	}
+	c19VarSets = append(c19VarSets,
+		map[string]func() *variants.Variant{"a": dt, "b": func() *variants.Variant { return variants.VariantFromString(" 2021-03-06t07:08:09z ") }, "c": func() *variants.Variant { return variants.VariantFromString("1E1") }, "d": func() *variants.Variant { return variants.VariantFromString(" TRUE") }},
+		map[string]func() *variants.Variant{"a": dt, "b": func() *variants.Variant { return variants.VariantFromString("2021-03-06T07:08:09Z") }, "c": func() *variants.Variant { return variants.VariantFromString("1e1") }, "d": func() *variants.Variant { return variants.VariantFromString("true") }},
+	)
+}
+
 func c19Vars(k int) *variables.VariableCollection {
 	vc := variables.NewVariableCollection()
 	for _, n := range []string{"a", "b", "c", "d"} {
@@ -129,7 +142,12 @@ func c19PurityExpr(c *fw.Ctx, text string, histLen int) {
 	}
 	funcs := functions.NewDefaultFunctionCollection()
 	c19AddHarnessFuncs(funcs)
-	vars := []*variables.VariableCollection{c19Vars(0), c19Vars(1), c19Vars(2)}
+	c19PurityExprGroup(c, calc, funcs, text, histLen, []int{0, 1, 2})
+	c19PurityExprGroup(c, calc, funcs, text, histLen, []int{3, 4, 3})
+}
+
+func c19PurityExprGroup(c *fw.Ctx, calc *calculator.ExpressionCalculator, funcs functions.IFunctionCollection, text string, histLen int, group []int) {
+	vars := []*variables.VariableCollection{c19Vars(group[0]), c19Vars(group[1]), c19Vars(group[2])}
 	globals := allGlobals()
 	hProg := func() uint64 { return snap.Hash(calc.ResultTokens()) }
 	hVars := func() uint64 { return snap.Hash(vars[0], vars[1], vars[2], calc.DefaultVariables()) }
@@ -159,7 +177,7 @@ func c19PurityExpr(c *fw.Ctx, text string, histLen int) {
 			if f, ok := first[k]; !ok {
 				first[k] = got
 			} else if f != got {
-				c.Violation("evaluation-not-repeatable", "expression %q: evaluation #%d of history %v under variable set %d gives %s, the first evaluation gave %s", text, step+1, h, k, got, f)
+				c.Violation("evaluation-not-repeatable", "expression %q: evaluation #%d of history %v (variable sets %v) under variable set %d gives %s, the first evaluation gave %s", text, step+1, h, group, group[k], got, f)
 				return
 			}
 			if p := hProg(); p != p0 {
@@ -485,6 +503,9 @@ func c19Schedules(c *fw.Ctx, h c19Harness, nThreads, boundShort, boundLong, thre
 		if len(x1.Points) > threshold {
 			bound = boundLong
 		}
+		if len(x1.Points) > 6*threshold && bound > 1 {
+			bound = 1 // very long bodies (every default function in one expression): one preemption, every position
+		}
 		if bound < 0 {
 			c.Outcome("harness-too-long-for-this-tier")
 			return
@@ -683,7 +704,7 @@ func init() {
 		},
 		Bounds: func(tier string) string {
 			if tier == "thorough" {
-				return "purity: 4.8k expressions and 33k templates x 39 histories; schedules: 21 harnesses, 2 threads <=3 preemptions (<=2 for harnesses with >100 yield points) and 3 threads <=2 (<=1) preemptions, cap 3M schedules per harness (reported if hit); race pass 300 rounds"
+				return "purity: 4.8k expressions and 33k templates x 39 histories; schedules: 21 harnesses, 2 threads <=3 preemptions (<=2 for harnesses with >100 yield points, <=1 above 600) and 3 threads <=2 (<=1) preemptions, cap 3M schedules per harness (reported if hit); race pass 300 rounds"
 			}
 			return "purity: 4.8k expressions and 4.8k templates x 39 histories; schedules: 21 harnesses, 2 threads <=2 preemptions (<=1 for harnesses with >150 yield points), all complete; race pass 30 rounds"
 		},
